@@ -401,7 +401,7 @@ func TestRandomNestings(t *testing.T) {
 		randomPool = append(randomPool, v)
 	}
 	vt.Note("random nestings", fmt.Sprintf("%d pool values not rooted at Obj are excluded by construction from the random nestings", excluded))
-	vt.Check(t, vt.N(6000, 150000), func(rt *rapid.T) {
+	vt.Check(t, vt.N(6000, 600000), func(rt *rapid.T) {
 		n := rapid.IntRange(1, 4).Draw(rt, "nvals")
 		vals := make([]string, n)
 		for i := range vals {
